@@ -68,7 +68,9 @@ def _comps(draw):
 def _common(tier):
     fresh = st.just(True) if tier == "thorough" else st.integers(0, 2).map(lambda i: i == 0)
     return {"model": gen.model, "comp": st.integers(0, 2), "precision": gen.loguniform(1e-6, 1e-3), "fresh": fresh,
-            "Tp": st.one_of(st.none(), gen.uniform(200.0, 290.0)), "T": st.one_of(gen.uniform(300.0, 360.0), st.just(330.0))}
+            # temperatures a few mK (or one part in 1e11) apart occur within one history: results remembered under a rounded key show
+            "Tp": st.one_of(st.none(), gen.uniform(200.0, 290.0), st.sampled_from([260.0, 260.004])),
+            "T": st.one_of(gen.uniform(300.0, 360.0), st.sampled_from([330.0, 330.0, 330.004, 330.0 + 1e-9]))}
 
 
 def rules(tier):
